@@ -236,7 +236,8 @@ pub fn jobs(tier: Tier, seed: u64) -> Vec<Job> {
     }
     groups.push(g_lax);
     // round-robin over the groups so every law gets a share of the budget; mandatory cases first
-    let mut out = vec![];
+    // the Vec backend's connected components (the gluing step of this property when run on the Vec backend)
+    let mut out = super::c07::conformance_jobs(tier, &[3, 5]);
     for grp in groups.iter_mut() {
         grp.sort_by_key(|(m, _)| !*m);
         grp.reverse();
